@@ -1242,18 +1242,20 @@ CHAIN_NOTE_C04 = (
     "above MAX_TIMEOUT (client and server clamp their timers at different instants, so a handler may run a few ms longer; "
     "stated as an exemption). It supersedes C04_cascade_partial. The same composition is run against REAL chains of "
     "depth 1..3 with every component polled explicitly and every wire write, yield, handler event, result and gauge "
-    "compared inside Coq (Checks/Chaincheck.v). Two further statements about the composition are pinned but open in "
-    "ChainSpec.v (stmt_chain_wire: per-hop wire clause; stmt_chain_fuel: no poll out of fuel); their monitors run on "
-    "every real trace.")
+    "compared inside Coq (Checks/Chaincheck.v). Also proved over the composition: no dispatch or stream poll of any "
+    "node runs out of fuel (C14_chain_poll_fuel) and the per-hop wire clause (C18_chain_wire). Open, checked on every "
+    "real trace only: SettleAll reaches a quiet round within its rounds budget (ChainSpec.stmt_chain_rounds; the "
+    "unconditional form is refuted beyond the DelayQueue range, C14_chain_fuel_pinned_refuted).")
 for _pid, _part, _note in (
         ("C04", C04_COMPOSE_PART, CHAIN_NOTE_C04),
         ("C18", C18_COMPOSE_PART,
          " MULTI-HOP (part compose, coq/Chain*.v): C18_chain_trace is proved for every depth and every op list over the "
          "composition of the client and server models: the request yielded to a handler on ANY node carries the trace id "
          "and sampling decision of a head call with the same body; run against REAL chains of depth 1..3 (every wire "
-         "write incl. span id, every yield compared inside Coq). The per-hop wire clause across the composition "
-         "(ChainSpec.stmt_chain_wire: fresh span id per hop, cancel repeats its request's trace and span) is pinned, "
-         "evaluated on every real trace, and proved per hop by C18_client_monitor, not yet for the composition."),
+         "write incl. span id, every yield compared inside Coq). The per-hop wire clause across the composition is "
+         "proved too (C18_chain_wire / C18_chain_wire_all: on every link a request carries its own span id and the head "
+         "call's trace number and deadline; a cancel is written only on a link where its request was written and "
+         "repeats that request's trace and span) and evaluated on every real trace."),
         ("C07", C07_COMPOSE_PART,
          " MULTI-HOP over in-memory links (part compose, coq/Chain*.v): C07_chain_deadline is proved for every depth and "
          "every op list over the composition of the client and server models: the request yielded on ANY node carries "
